@@ -377,7 +377,9 @@ def large_task(task):
     return acc
 
 
-KIND_SCRIPTS = [['all'], [1, 'all'], [1012, 1012, 'all'], [1013, 1, 2024, 'all'], [5000], [4] * 30 + ['all'], [2028, 'all']]
+KIND_SCRIPTS = [['all'], [1, 'all'], [1012, 1012, 'all'], [1013, 1, 2024, 'all'], [5000], [4] * 30 + ['all'], [2028, 'all'],
+                # sizes no file can satisfy ("or all that remain"): 2 GiB, the largest machine word, beyond it
+                [1 << 31], [7, (1 << 63) - 1], [1 << 64, 1], [10 ** 30]]
 
 
 def kind_task(task):
